@@ -227,6 +227,21 @@ type Gate struct {
 // enter is called from library goroutines inside SPI fakes.
 func (n *Node) gateEnter(ctx context.Context, kind string, height uint64) GateVerdict {
 	w := n.w
+	// runaway guard: a library goroutine that calls the SPI in a tight loop never becomes quiescent. It is flagged and
+	// parked for good so that the run can end (the harness would otherwise wait forever).
+	if n.spiStep != w.step {
+		n.spiStep, n.spiCalls = w.step, 0
+	}
+	n.spiCalls++
+	if n.spiCalls > 20000 {
+		if ctx.Err() != nil {
+			w.violate("C16", "busy-loop-after-cancel", "n%d calls %s in a tight loop with a cancelled context (more than 20000 calls without ever blocking)", n.idx, kind)
+			w.violate("C15", "runtime/busy-loop-on-cancelled-context", "n%d calls %s in a tight loop with a cancelled context", n.idx, kind)
+		}
+		w.violate("C12", "busy-loop", "n%d calls %s in a tight loop (more than 20000 calls without ever blocking)", n.idx, kind)
+		w.runaway = true
+		<-w.never
+	}
 	w.ev("spi-start n%d %s h%d", n.idx, kind, height)
 	if n.gatePolicy == nil {
 		return GatePass
